@@ -14,6 +14,7 @@ from vcheck import Inconclusive, write_ndjson
 
 CRASH_PATTERNS = [
     ("leak", re.compile(r"deadlock: main bubble goroutine has exited but blocked goroutines remain")),
+    ("hang", re.compile(r"deadlock: all goroutines in bubble are blocked")),
     ("panic", re.compile(r"^panic: ", re.M)),
     ("panic", re.compile(r"^fatal error: ", re.M)),
     ("hang", re.compile(r"test timed out after")),
@@ -45,34 +46,59 @@ def _run_one(ctx, binary, test, behs, base, tag, env, timeout):
     return False, classify_crash(out), out, tpath
 
 
-def run_batched(ctx, binary, test, behs, out_path, tag, batch=400, env=None, timeout=600, reset_fields=None):
-    """Run all behaviours; append their traces to out_path.  Returns number of crashed behaviours."""
-    crashed = 0
-    with open(out_path, "a") as outf:
-        for base in range(0, len(behs), batch):
-            chunk = behs[base:base + batch]
-            ok, kind, out, tpath = _run_one(ctx, binary, test, chunk, base, tag, env, timeout)
+def run_batched(ctx, binary, test, behs, out_path, tag, batch=400, env=None, timeout=300, reset_fields=None,
+                max_crashes=2, single_timeout=90):
+    """Run all behaviours; append their traces to out_path.  Returns the list of crashed behaviour indices.
+
+    A batch whose driver process dies is bisected (prefix first) down to single behaviours; the behaviours before
+    the culprit are not lost.  After max_crashes attributed crashes the rest of the phase is skipped (the verdict
+    is already determined; this bounds the time spent on a failing path)."""
+    crashed = []
+    skipped = [0]
+    counter = [0]
+
+    def emit_crash(outf, i, b, kind, out):
+        rs = {"ev": "reset", "b": i}
+        rs.update(reset_fields(b) if reset_fields else {})
+        outf.write(json.dumps(rs, separators=(",", ":")) + "\n")
+        m = re.search(r"^(panic: .*|fatal error: .*)$", out, re.M)
+        outf.write(json.dumps({"ev": "crash", "kind": kind, "b": i, "msg": (m.group(1) if m else kind)[:300],
+                               "tail": out[-3000:], "beh": json.dumps(b)}, separators=(",", ":")) + "\n")
+
+    def go(outf, lo, hi, known_bad):
+        # behaviours [lo, hi); known_bad: this range is known to crash (skip the confirming run unless single)
+        if lo >= hi:
+            return
+        if len(crashed) >= max_crashes:
+            skipped[0] += hi - lo
+            return
+        n = hi - lo
+        if not known_bad or n == 1:
+            counter[0] += 1
+            ok, kind, out, tpath = _run_one(ctx, binary, test, behs[lo:hi], lo, "%s%d" % (tag, counter[0]), env,
+                                            timeout if n > 1 else single_timeout)
             if ok:
                 outf.write(open(tpath).read())
-                continue
+                return
             if kind is None:
                 raise Inconclusive("driver %s failed without a recognisable crash:\n%s" % (test, out[-4000:]))
-            ctx.log("driver process died (%s) in batch %d..%d: re-running one behaviour at a time" % (kind, base, base + len(chunk)))
-            for i, b in enumerate(chunk):
-                ok, kind, out, tpath = _run_one(ctx, binary, test, [b], base + i, tag + "s", env, timeout)
-                if ok:
-                    outf.write(open(tpath).read())
-                    continue
-                if kind is None:
-                    raise Inconclusive("driver %s failed without a recognisable crash:\n%s" % (test, out[-4000:]))
-                crashed += 1
-                rs = {"ev": "reset", "b": base + i}
-                rs.update(reset_fields(b) if reset_fields else {})
-                outf.write(json.dumps(rs, separators=(",", ":")) + "\n")
-                msg = out[-3000:]
-                m = re.search(r"^(panic: .*|fatal error: .*)$", out, re.M)
-                outf.write(json.dumps({"ev": "crash", "kind": kind, "b": base + i, "msg": (m.group(1) if m else kind)[:300],
-                                       "tail": msg, "beh": json.dumps(b)}, separators=(",", ":")) + "\n")
+            if n == 1:
+                ctx.log("driver process died (%s) on behaviour %d of phase %s" % (kind, lo, tag))
+                crashed.append(lo)
+                emit_crash(outf, lo, behs[lo], kind, out)
+                return
+            ctx.log("driver process died (%s) in behaviours %d..%d of phase %s: bisecting" % (kind, lo, hi, tag))
+        mid = lo + n // 2
+        before = len(crashed)
+        go(outf, lo, mid, False)
+        # if the first half was clean the culprit is in the second half
+        go(outf, mid, hi, len(crashed) == before)
+
+    with open(out_path, "a") as outf:
+        for base in range(0, len(behs), batch):
+            go(outf, base, min(base + batch, len(behs)), False)
+    if skipped[0]:
+        ctx.log("phase %s: %d behaviours skipped after %d attributed crashes" % (tag, skipped[0], len(crashed)))
     return crashed
 
 
